@@ -1758,6 +1758,12 @@ func (n *node) spawn(factory gen.ProcessFactory, options gen.ProcessOptionsExtra
 
 func (n *node) unregisterProcess(p *process, reason error) {
 	n.processes.Delete(p.pid)
+	registered := p.registered.Load()
+	if registered {
+		// release the name before anybody learns about the termination:
+		// a supervisor restarts the child under the same name right away
+		n.names.Delete(p.name)
+	}
 	lib.VerifPoint(p.pid, "unreg:deleted")
 	n.RouteTerminatePID(p.pid, reason)
 	lib.VerifPoint(p.pid, "unreg:drained")
@@ -1771,8 +1777,7 @@ func (n *node) unregisterProcess(p *process, reason error) {
 	}
 	n.log.Trace("...unregisterProcess %s", p.pid)
 
-	if p.registered.Load() {
-		n.names.Delete(p.name)
+	if registered {
 		pname := gen.ProcessID{Name: p.name, Node: n.name}
 		n.RouteTerminateProcessID(pname, reason)
 	}
